@@ -35,7 +35,8 @@ Local Open Scope Z_scope.
 
 Inductive ty :=
 | TUnit | TInt | TNat | TString | TMutez | TOperation
-| TPair (a b : ty) | TOption (a : ty) | TList (a : ty) | TBigMap (k v : ty).
+| TPair (a b : ty) | TOption (a : ty) | TList (a : ty) | TBigMap (k v : ty)
+| TBool | TLambda (a r : ty).
 
 Fixpoint ty_eqb (a b : ty) : bool :=
   match a, b with
@@ -45,24 +46,27 @@ Fixpoint ty_eqb (a b : ty) : bool :=
   | TOption a1, TOption b1 => ty_eqb a1 b1
   | TList a1, TList b1 => ty_eqb a1 b1
   | TBigMap a1 a2, TBigMap b1 b2 => ty_eqb a1 b1 && ty_eqb a2 b2
+  | TBool, TBool => true
+  | TLambda a1 a2, TLambda b1 b2 => ty_eqb a1 b1 && ty_eqb a2 b2
   | _, _ => false
   end.
 
 (* MichelsonType.is_comparable / is_pushable / is_big_map_friendly *)
 Fixpoint comparable (t : ty) : bool :=
   match t with
-  | TUnit | TInt | TNat | TString | TMutez => true
+  | TUnit | TInt | TNat | TString | TMutez | TBool => true
   | TPair a b => comparable a && comparable b
   | TOption a => comparable a
-  | TOperation | TList _ | TBigMap _ _ => false
+  | TOperation | TList _ | TBigMap _ _ | TLambda _ _ => false
   end.
 
 Fixpoint pushable (t : ty) : bool :=
   match t with
-  | TUnit | TInt | TNat | TString | TMutez => true
+  | TUnit | TInt | TNat | TString | TMutez | TBool => true
   | TPair a b => pushable a && pushable b
   | TOption a => pushable a
   | TList a => pushable a
+  | TLambda _ _ => true
   | TOperation | TBigMap _ _ => false
   end.
 
@@ -74,8 +78,31 @@ Fixpoint valid_ty (t : ty) : bool :=
   | TOption a => valid_ty a
   | TList a => valid_ty a
   | TBigMap k v => comparable k && valid_ty k && valid_ty v
+  | TLambda a r => valid_ty a && valid_ty r
   | _ => true
   end.
+
+(* ------------------------------------------------------------------------------------------ *)
+(* Michelson instructions (syntax); lambdas are values that carry code                        *)
+(* ------------------------------------------------------------------------------------------ *)
+
+(* context fields PATCH can set (the integer-valued ones) *)
+Inductive pfield := PAmount | PBalance | PNow.
+
+Inductive minstr :=
+| MPush (t : ty) (lit : node)
+| MDrop | MDup | MSwap | MPair | MUnpair | MCar | MCdr
+| MSome | MNone (t : ty) | MNil (t : ty) | MUnit
+| MEmptyBigMap (k v : ty) | MUpdate | MGet | MGetAndUpdate
+| MAdd | MFailwith
+| MDip (body : list minstr)            (* DIP { body } *)
+| MIfNone (bt bf : list minstr)        (* IF_NONE { bt } { bf } *)
+| MDipN (n : nat) (body : list minstr) (* DIP n { body } *)
+| MIf (bt bf : list minstr)            (* IF { bt } { bf } *)
+| MLoop (body : list minstr)           (* LOOP { body } *)
+| MLambda (a r : ty) (body : list minstr)  (* LAMBDA a r { body } *)
+| MExec
+| MPatch (f : pfield) (v : option Z).  (* PATCH AMOUNT 5 / PATCH AMOUNT *)
 
 (* ------------------------------------------------------------------------------------------ *)
 (* values; [H] is what a big_map carries                                                      *)
@@ -91,7 +118,10 @@ Inductive gval (H : Type) : Type :=
 | GNone (t : ty)
 | GSome (a : gval H)
 | GNil (t : ty)
-| GBig (k v : ty) (h : H).
+| GBig (k v : ty) (h : H)
+| GBool (b : bool)
+| GLam (a r : ty) (body : list minstr).   (* LambdaType value: the code *)
+Arguments GBool {H} b. Arguments GLam {H} a r body.
 Arguments GUnit {H}. Arguments GInt {H} z. Arguments GNat {H} z. Arguments GStr {H} s.
 Arguments GMutez {H} z. Arguments GPair {H} a b. Arguments GNone {H} t. Arguments GSome {H} a.
 Arguments GNil {H} t. Arguments GBig {H} k v h.
@@ -107,6 +137,8 @@ Fixpoint gmap {A B} (f : A -> B) (v : gval A) : gval B :=
   | GSome a => GSome (gmap f a)
   | GNil t => GNil t
   | GBig k v h => GBig k v (f h)
+  | GBool b => GBool b
+  | GLam a r body => GLam a r body
   end.
 
 Definition inj {H} (v : sval) : gval H := gmap (fun e : Empty_set => match e with end) v.
@@ -120,6 +152,8 @@ Fixpoint proj {H} (v : gval H) : option sval :=
   | GSome a => match proj a with Some a' => Some (GSome a') | None => None end
   | GNil t => Some (GNil t)
   | GBig _ _ _ => None
+  | GBool b => Some (GBool b)
+  | GLam a r body => Some (GLam a r body)
   end.
 
 Fixpoint type_of {H} (v : gval H) : ty :=
@@ -130,6 +164,8 @@ Fixpoint type_of {H} (v : gval H) : ty :=
   | GSome a => TOption (type_of a)
   | GNil t => TList t
   | GBig k v _ => TBigMap k v
+  | GBool _ => TBool
+  | GLam a r _ => TLambda a r
   end.
 
 Fixpoint handles_of {H} (v : gval H) : list H :=
@@ -149,6 +185,7 @@ Fixpoint sval_eqb (a b : sval) : bool :=
   | GNone t1, GNone t2 => ty_eqb t1 t2
   | GSome x, GSome y => sval_eqb x y
   | GNil t1, GNil t2 => ty_eqb t1 t2
+  | GBool x, GBool y => Bool.eqb x y
   | _, _ => false
   end.
 
@@ -170,6 +207,8 @@ Fixpoint key_cmp (a b : sval) : comparison :=
   | GNone _, GSome _ => Lt
   | GSome _, GNone _ => Gt
   | GSome x, GSome y => key_cmp x y
+  | GBool false, GBool true => Lt
+  | GBool true, GBool false => Gt
   | _, _ => Eq
   end.
 
@@ -191,25 +230,19 @@ Definition set_ctx (c : nat) (h : handle) : handle := mkH (h_ptr h) c (h_items h
 Definition rebind (old new : nat) (h : handle) : handle :=
   if Nat.eqb (h_ctx h) old then set_ctx new h else h.
 
-Inductive minstr :=
-| MPush (t : ty) (lit : node)
-| MDrop | MDup | MSwap | MPair | MUnpair | MCar | MCdr
-| MSome | MNone (t : ty) | MNil (t : ty) | MUnit
-| MEmptyBigMap (k v : ty) | MUpdate | MGet | MGetAndUpdate
-| MAdd | MFailwith
-| MDip (body : list minstr)            (* DIP { body } *)
-| MIfNone (bt bf : list minstr).       (* IF_NONE { bt } { bf } *)
-
 Record ctxrec := mkC {
   c_param : option ty;            (* parameter_expr *)
   c_storage : option ty;          (* storage_expr *)
   c_code : option (list minstr);  (* code_expr *)
   c_tmp : Z;                      (* tmp_big_map_index *)
   c_alloc : Z;                    (* alloc_big_map_index *)
-  c_table : list (Z * (Z * bool)) (* big_maps: ptr -> (source ptr, copy), kept sorted by ptr *)
+  c_table : list (Z * (Z * bool)); (* big_maps: ptr -> (source ptr, copy), kept sorted by ptr *)
+  c_amount : option Z;            (* amount / balance / now as set by PATCH *)
+  c_balance : option Z;
+  c_now : option Z
 }.
 
-Definition ctx0 : ctxrec := mkC None None None 0 0 [].
+Definition ctx0 : ctxrec := mkC None None None 0 0 [] None None None.
 
 Fixpoint table_find (p : Z) (t : list (Z * (Z * bool))) : option (Z * bool) :=
   match t with
@@ -284,12 +317,17 @@ Definition tag_string : byte := x68.
 Definition tag_mutez : byte := x6a.
 Definition tag_unit : byte := x6c.
 Definition tag_operation : byte := x6d.
+Definition tag_False : byte := x03.
+Definition tag_True : byte := x0a.
+Definition tag_bool : byte := x59.
+Definition tag_lambda : byte := x5e.
 
 Definition tag_table : list (bytes * byte) :=
   [ (tx "Elt"%string, tag_Elt); (tx "None"%string, tag_None); (tx "Pair"%string, tag_Pair); (tx "Some"%string, tag_Some);
     (tx "Unit"%string, tag_Unit); (tx "int"%string, tag_int); (tx "list"%string, tag_list); (tx "big_map"%string, tag_big_map);
     (tx "nat"%string, tag_nat); (tx "option"%string, tag_option); (tx "pair"%string, tag_pair); (tx "string"%string, tag_string);
-    (tx "mutez"%string, tag_mutez); (tx "unit"%string, tag_unit); (tx "operation"%string, tag_operation) ].
+    (tx "mutez"%string, tag_mutez); (tx "unit"%string, tag_unit); (tx "operation"%string, tag_operation);
+    (tx "False"%string, tag_False); (tx "True"%string, tag_True); (tx "bool"%string, tag_bool); (tx "lambda"%string, tag_lambda) ].
 
 Definition MUTEZ_LIMIT : Z := 9223372036854775808.   (* 2^63 *)
 
@@ -301,6 +339,8 @@ Fixpoint parse_s (t : ty) (n : node) {struct t} : option sval :=
   match t, n with
   | TUnit, NPrim tag [] _ => if byte_eqb tag tag_Unit then Some GUnit else None
   | TInt, NInt z => Some (GInt z)
+  | TBool, NPrim tag [] _ =>
+      if byte_eqb tag tag_True then Some (GBool true) else if byte_eqb tag tag_False then Some (GBool false) else None
   | TNat, NInt z => if Z.leb 0 z then Some (GNat z) else None
   | TMutez, NInt z => if Z.leb 0 z && Z.ltb z MUTEZ_LIMIT then Some (GMutez z) else None
   | TString, NStr s => Some (GStr s)
@@ -375,19 +415,27 @@ Fixpoint parse_v (t : ty) (n : node) {struct t} : option (gval rawbig) :=
 
 (* get_tmp_big_map_id *)
 Definition tmp_id (c : ctxrec) : Z * ctxrec :=
-  (- (c_tmp c + 1), mkC (c_param c) (c_storage c) (c_code c) (c_tmp c + 1) (c_alloc c) (c_table c)).
+  (- (c_tmp c + 1), mkC (c_param c) (c_storage c) (c_code c) (c_tmp c + 1) (c_alloc c) (c_table c) (c_amount c) (c_balance c) (c_now c)).
 
 Definition set_table (c : ctxrec) (t : list (Z * (Z * bool))) : ctxrec :=
-  mkC (c_param c) (c_storage c) (c_code c) (c_tmp c) (c_alloc c) t.
+  mkC (c_param c) (c_storage c) (c_code c) (c_tmp c) (c_alloc c) t (c_amount c) (c_balance c) (c_now c).
+
+Definition patch (c : ctxrec) (f : pfield) (v : option Z) : ctxrec :=
+  match f with
+  | PAmount => mkC (c_param c) (c_storage c) (c_code c) (c_tmp c) (c_alloc c) (c_table c) v (c_balance c) (c_now c)
+  | PBalance => mkC (c_param c) (c_storage c) (c_code c) (c_tmp c) (c_alloc c) (c_table c) (c_amount c) v (c_now c)
+  | PNow => mkC (c_param c) (c_storage c) (c_code c) (c_tmp c) (c_alloc c) (c_table c) (c_amount c) (c_balance c) v
+  end.
 
 Definition bump_alloc (c : ctxrec) : ctxrec :=
-  mkC (c_param c) (c_storage c) (c_code c) (c_tmp c) (c_alloc c + 1) (c_table c).
+  mkC (c_param c) (c_storage c) (c_code c) (c_tmp c) (c_alloc c + 1) (c_table c) (c_amount c) (c_balance c) (c_now c).
 
 (* BigMapType.attach_context over a parsed value, left to right; [cp] = big_map_copy *)
 Fixpoint attach (cp : bool) (cur : nat) (v : gval rawbig) (c : ctxrec) : value * ctxrec :=
   match v with
   | GUnit => (GUnit, c) | GInt z => (GInt z, c) | GNat z => (GNat z, c) | GStr s => (GStr s, c)
   | GMutez z => (GMutez z, c) | GNone t => (GNone t, c) | GNil t => (GNil t, c)
+  | GBool b => (GBool b, c) | GLam a r body => (GLam a r body, c)
   | GPair a b =>
       let '(a', c1) := attach cp cur a c in
       let '(b', c2) := attach cp cur b c1 in
@@ -643,47 +691,97 @@ Definition mstep (i : minstr) (s : session) : option session :=
       | _ => None
       end
   | MFailwith => None
-  | MDip _ | MIfNone _ _ => None   (* instructions with nested code: see [mexec] *)
+  | MLambda a r body => Some (with_stack s (GLam a r body :: st))
+  | MPatch f v => Some (with_ctx s (patch (s_ctx s) f v))
+  | MDip _ | MIfNone _ _ | MDipN _ _ | MIf _ _ | MLoop _ | MExec => None   (* see [mexec] *)
   end.
 
-(* outcome of running code: finished, or raised leaving the contexts as they were at that moment *)
-Inductive outcome (A : Type) := Done (a : A) | Failed (at_failure : session).
-Arguments Done {A} a. Arguments Failed {A} at_failure.
+(* outcome of running code: finished, or raised leaving the contexts as they were at that moment.
+   [out_of_fuel] marks a run that the model cut off (LOOP iterations and EXEC depth are bounded by
+   the fuel); the theorems exclude such runs. *)
+Inductive outcome (A : Type) := Done (a : A) | Failed (out_of_fuel : bool) (at_failure : session).
+Arguments Done {A} a. Arguments Failed {A} out_of_fuel at_failure.
 
-(* instructions with nested code. DIP hides the top element while the body runs (stack.protect(1));
-   modelled for the case that the body finds its operands on the visible part of the stack — pytezos'
-   protect() only checks the total length, so `DIP { DIP { PUSH .. } }` on a one-element stack succeeds
-   there (Tezos rejects it) while the model fails: outside the modelled domain. *)
-Fixpoint mexec (i : minstr) (s : session) {struct i} : outcome session :=
-  let fix go (l : list minstr) (s : session) {struct l} : outcome session :=
-      match l with
-      | [] => Done s
-      | x :: r => match mexec x s with Done s' => go r s' | Failed f => Failed f end
-      end in
-  match i with
-  | MDip body =>
-      match s_stack s with
-      | a :: r =>
-          match go body (with_stack s r) with
-          | Done s' => Done (with_stack s' (a :: s_stack s'))
-          | Failed f => Failed f
-          end
-      | [] => Failed s
-      end
-  | MIfNone bt bf =>
-      match s_stack s with
-      | GNone _ :: r => go bt (with_stack s r)
-      | GSome a :: r => go bf (with_stack s (a :: r))
-      | _ => Failed s
-      end
-  | _ => match mstep i s with Some s' => Done s' | None => Failed s end
+Section RunList.
+  Variable ex : minstr -> session -> outcome session.
+  Fixpoint runl (l : list minstr) (s : session) : outcome session :=
+    match l with
+    | [] => Done s
+    | x :: r => match ex x s with Done s' => runl r s' | Failed b f => Failed b f end
+    end.
+End RunList.
+
+(* instructions with nested code, loops and lambdas.  Every LOOP iteration and every EXEC consumes
+   one unit of fuel.  DIP hides the top elements while the body runs (stack.protect(n)); modelled
+   for the case that the body finds its operands on the visible part of the stack — pytezos' protect()
+   only checks the total length, so `DIP { DIP { PUSH .. } }` on a one-element stack succeeds there
+   (Tezos rejects it) while the model fails: outside the modelled domain. *)
+Fixpoint mexec (fuel : nat) : minstr -> session -> outcome session :=
+  match fuel with
+  | O => fun _ s => Failed true s
+  | S f =>
+      fix me (i : minstr) (s : session) {struct i} : outcome session :=
+        match i with
+        | MDip body =>
+            match s_stack s with
+            | a :: r =>
+                match runl me body (with_stack s r) with
+                | Done s' => Done (with_stack s' (a :: s_stack s'))
+                | Failed b x => Failed b x
+                end
+            | [] => Failed false s
+            end
+        | MDipN n body =>
+            if Nat.leb n (List.length (s_stack s)) then
+              match runl me body (with_stack s (skipn n (s_stack s))) with
+              | Done s' => Done (with_stack s' (firstn n (s_stack s) ++ s_stack s'))
+              | Failed b x => Failed b x
+              end
+            else Failed false s
+        | MIfNone bt bf =>
+            match s_stack s with
+            | GNone _ :: r => runl me bt (with_stack s r)
+            | GSome a :: r => runl me bf (with_stack s (a :: r))
+            | _ => Failed false s
+            end
+        | MIf bt bf =>
+            match s_stack s with
+            | GBool true :: r => runl me bt (with_stack s r)
+            | GBool false :: r => runl me bf (with_stack s r)
+            | _ => Failed false s
+            end
+        | MLoop body =>
+            match s_stack s with
+            | GBool true :: r =>
+                match runl me body (with_stack s r) with
+                | Done s' => mexec f (MLoop body) s'
+                | Failed b x => Failed b x
+                end
+            | GBool false :: r => Done (with_stack s r)
+            | _ => Failed false s
+            end
+        | MExec =>
+            (* pop the argument and the lambda, run the code on a fresh stack holding the argument,
+               exactly one value of the return type must remain *)
+            match s_stack s with
+            | arg :: GLam a r body :: rest =>
+                if ty_eqb (type_of arg) a then
+                  match runl (mexec f) body (with_stack s [arg]) with
+                  | Done s' =>
+                      match s_stack s' with
+                      | [res] => if ty_eqb (type_of res) r then Done (with_stack s' (res :: rest)) else Failed false s'
+                      | _ => Failed false s'
+                      end
+                  | Failed b x => Failed b x
+                  end
+                else Failed false s
+            | _ => Failed false s
+            end
+        | _ => match mstep i s with Some s' => Done s' | None => Failed false s end
+        end
   end.
 
-Fixpoint mrun (l : list minstr) (s : session) : outcome session :=
-  match l with
-  | [] => Done s
-  | i :: r => match mexec i s with Done s' => mrun r s' | Failed f => Failed f end
-  end.
+Definition mrun (fuel : nat) (l : list minstr) (s : session) : outcome session := runl (mexec fuel) l s.
 
 (* ------------------------------------------------------------------------------------------ *)
 (* REPL helpers (instructions/jupyter.py) and sections                                        *)
@@ -700,9 +798,9 @@ Inductive output :=
 | ORun (d : list diff) (result : gval Z)      (* RunInstruction.lazy_diff / .result *)
 | ODiff (d : list diff).                      (* BigMapDiffInstruction.lazy_diff *)
 
-Definition set_param (c : ctxrec) (t : ty) := mkC (Some t) (c_storage c) (c_code c) (c_tmp c) (c_alloc c) (c_table c).
-Definition set_storage (c : ctxrec) (t : ty) := mkC (c_param c) (Some t) (c_code c) (c_tmp c) (c_alloc c) (c_table c).
-Definition set_code (c : ctxrec) (b : list minstr) := mkC (c_param c) (c_storage c) (Some b) (c_tmp c) (c_alloc c) (c_table c).
+Definition set_param (c : ctxrec) (t : ty) := mkC (Some t) (c_storage c) (c_code c) (c_tmp c) (c_alloc c) (c_table c) (c_amount c) (c_balance c) (c_now c).
+Definition set_storage (c : ctxrec) (t : ty) := mkC (c_param c) (Some t) (c_code c) (c_tmp c) (c_alloc c) (c_table c) (c_amount c) (c_balance c) (c_now c).
+Definition set_code (c : ctxrec) (b : list minstr) := mkC (c_param c) (c_storage c) (Some b) (c_tmp c) (c_alloc c) (c_table c) (c_amount c) (c_balance c) (c_now c).
 
 (* BEGIN: parse both literals, attach parameter (copy) then storage, the stack becomes the pair *)
 Definition begin (p st : node) (s : session) : option session :=
@@ -731,54 +829,54 @@ Definition commit (s : session) : option (list diff * value * value * session) :
   | _, _ => None
   end.
 
-Definition istep (i : instr) (s : session) : outcome (session * list output) :=
+Definition istep (fuel : nat) (i : instr) (s : session) : outcome (session * list output) :=
   match i with
-  | IM m => match mexec m s with Done s' => Done (s', []) | Failed f => Failed f end
+  | IM m => match mexec fuel m s with Done s' => Done (s', []) | Failed b f => Failed b f end
   | IParameter t => Done (with_ctx s (set_param (s_ctx s) t), [])
   | IStorage t => Done (with_ctx s (set_storage (s_ctx s) t), [])
   | ICode b => Done (with_ctx s (set_code (s_ctx s) b), [])
-  | IBegin p st => match begin p st s with Some s' => Done (s', []) | None => Failed s end
+  | IBegin p st => match begin p st s with Some s' => Done (s', []) | None => Failed false s end
   | ICommit =>
       match commit s with
       | Some (d, _, res, s') => Done (s', [OCommit d (gmap h_ptr res)])
-      | None => Failed s
+      | None => Failed false s
       end
   | IRun p st =>
       match c_code (s_ctx s) with
       | Some body =>
           match begin p st (with_stack s []) with
           | Some s1 =>
-              match mrun body s1 with
+              match mrun fuel body s1 with
               | Done s2 =>
                   match commit s2 with
                   | Some (d, raw, _, s3) => Done (s3, [ORun d (gmap h_ptr raw)])
-                  | None => Failed s2
+                  | None => Failed false s2
                   end
-              | Failed sf => Failed sf
+              | Failed b sf => Failed b sf
               end
-          | None => Failed s
+          | None => Failed false s
           end
-      | None => Failed s
+      | None => Failed false s
       end
   | IBigMapDiff =>
       match s_stack s with
       | top :: _ =>
           match aggregate top s with
           | Some (_, d, s') => Done (with_stack s' (s_stack s), [ODiff d])
-          | None => Failed s
+          | None => Failed false s
           end
-      | [] => Failed s
+      | [] => Failed false s
       end
   | IReset => Done (mkS [] (s_cur s) (set_table (s_ctx s) []) (s_stale s) (s_next s), [])
   end.
 
-Fixpoint irun (l : list instr) (s : session) (acc : list output) : outcome (session * list output) :=
+Fixpoint irun (fuel : nat) (l : list instr) (s : session) (acc : list output) : outcome (session * list output) :=
   match l with
   | [] => Done (s, acc)
   | i :: r =>
-      match istep i s with
-      | Done (s', o) => irun r s' (acc ++ o)
-      | Failed sf => Failed sf
+      match istep fuel i s with
+      | Done (s', o) => irun fuel r s' (acc ++ o)
+      | Failed b sf => Failed b sf
       end
   end.
 
@@ -797,7 +895,9 @@ Fixpoint minstr_valid (m : minstr) : bool :=
   | MPush t _ | MNone t | MNil t => valid_ty t
   | MEmptyBigMap k v => valid_ty k && valid_ty v
   | MDip b => forallb minstr_valid b
-  | MIfNone bt bf => forallb minstr_valid bt && forallb minstr_valid bf
+  | MIfNone bt bf | MIf bt bf => forallb minstr_valid bt && forallb minstr_valid bf
+  | MDipN _ b | MLoop b => forallb minstr_valid b
+  | MLambda a r b => valid_ty a && valid_ty r && forallb minstr_valid b
   | _ => true
   end.
 
@@ -823,31 +923,33 @@ Definition restore (m : mode) (s0 sf : session) : session :=
             end in
   mkS st (s_next sf) (s_ctx s0) ((s_cur sf, s_ctx sf) :: s_stale sf) (S (s_next sf)).
 
-Inductive cellres := RDone (o : list output) | RFail.
+(* RFuel: the model ran out of fuel in this cell (no statement about the code is made for such runs) *)
+Inductive cellres := RDone (o : list output) | RFail | RFuel.
 
-Definition exec_cell (m : mode) (s : session) (c : cell) : session * cellres :=
+Definition exec_cell (m : mode) (fuel : nat) (s : session) (c : cell) : session * cellres :=
   match c with
   | CBad => (restore m s s, RFail)
   | CCrash => (s, RFail)
   | CCode l =>
       if forallb instr_valid l then
-        match irun l s [] with
+        match irun fuel l s [] with
         | Done (s', o) => (s', RDone o)
-        | Failed sf => (restore m s sf, RFail)
+        | Failed b sf => (restore m s sf, if b then RFuel else RFail)
         end
       else (restore m s s, RFail)
   end.
 
-Fixpoint run (m : mode) (s : session) (cells : list cell) : session * list cellres :=
+Fixpoint run (m : mode) (fuel : nat) (s : session) (cells : list cell) : session * list cellres :=
   match cells with
   | [] => (s, [])
   | c :: r =>
-      let '(s1, o) := exec_cell m s c in
-      let '(s2, os) := run m s1 r in
+      let '(s1, o) := exec_cell m fuel s c in
+      let '(s2, os) := run m fuel s1 r in
       (s2, o :: os)
   end.
 
-Definition is_done (r : cellres) : bool := match r with RDone _ => true | RFail => false end.
+Definition is_done (r : cellres) : bool := match r with RDone _ => true | _ => false end.
+Definition fuel_ok (r : cellres) : bool := match r with RFuel => false | _ => true end.
 
 (* the session with the failing cells removed *)
 Fixpoint keep_done (cells : list cell) (rs : list cellres) : list cell :=
@@ -865,67 +967,6 @@ Definition view (s : session) : list value * ctxrec :=
 (* rendering of observations as Micheline trees, for the correspondence run                   *)
 (* ------------------------------------------------------------------------------------------ *)
 
-Fixpoint render_ty (t : ty) : node :=
-  match t with
-  | TUnit => NPrim tag_unit [] [] | TInt => NPrim tag_int [] [] | TNat => NPrim tag_nat [] []
-  | TString => NPrim tag_string [] [] | TMutez => NPrim tag_mutez [] []
-  | TOperation => NPrim tag_operation [] []
-  | TPair a b => NPrim tag_pair [render_ty a; render_ty b] []
-  | TOption a => NPrim tag_option [render_ty a] []
-  | TList a => NPrim tag_list [render_ty a] []
-  | TBigMap k v => NPrim tag_big_map [render_ty k; render_ty v] []
-  end.
-
-(* to_micheline_value(lazy_diff=False): a big_map shows its id *)
-Fixpoint render_g {H} (f : H -> node) (v : gval H) : node :=
-  match v with
-  | GUnit => NPrim tag_Unit [] []
-  | GInt z | GNat z | GMutez z => NInt z
-  | GStr s => NStr s
-  | GPair a b =>
-      (* readable mode flattens right combs: Pair a (Pair b c) shows as Pair a b c *)
-      NPrim tag_Pair (render_g f a ::
-        (fix tail (w : gval H) : list node :=
-           match w with
-           | GPair x y => render_g f x :: tail y
-           | _ => [render_g f w]
-           end) b) []
-  | GNone _ => NPrim tag_None [] []
-  | GSome a => NPrim tag_Some [render_g f a] []
-  | GNil _ => NSeq []
-  | GBig _ _ h => f h
-  end.
-
-Definition render_s (v : sval) : node := render_g (fun e : Empty_set => match e with end) v.
-Definition render_v (v : value) : node := render_g (fun h => NInt (h_ptr h)) v.
-
-Definition nbool (b : bool) : node := NInt (if b then 1 else 0).
-Definition nnat (n : nat) : node := NInt (Z.of_nat n).
-Definition nopt (o : option node) : node := match o with Some x => NSeq [x] | None => NSeq [] end.
-
-Definition render_handle (h : handle) : node :=
-  NSeq [NInt (h_ptr h); nnat (h_ctx h);
-        NSeq (map (fun kv => NSeq [render_s (fst kv); render_s (snd kv)]) (h_items h));
-        NSeq (map render_s (h_removed h))].
-
-Definition render_item (v : value) : node :=
-  NSeq [render_ty (type_of v); render_v v; NSeq (map render_handle (handles_of v))].
-
-Definition render_action (a : action) : node :=
-  NInt (match a with AAlloc => 0 | AUpdate => 1 | ACopy => 2 end).
-
-Definition render_diff (d : diff) : node :=
-  NSeq [NInt (d_id d); render_action (d_action d);
-        NSeq (map (fun u => NSeq [render_s (fst u); nopt (option_map render_s (snd u))]) (d_updates d));
-        nopt (option_map (fun kv => NSeq [render_ty (fst kv); render_ty (snd kv)]) (d_types d))].
-
-Definition render_output (o : output) : node :=
-  match o with
-  | OCommit d r => NSeq [NInt 0; NSeq (map render_diff d); render_g NInt r]
-  | ORun d r => NSeq [NInt 1; NSeq (map render_diff d); render_g NInt r]
-  | ODiff d => NSeq [NInt 2; NSeq (map render_diff d)]
-  end.
-
 (* the code section is shown by the index the harness gave to that body *)
 Fixpoint minstr_eqb (a b : minstr) {struct a} : bool :=
   let fix go (l1 l2 : list minstr) {struct l1} : bool :=
@@ -942,7 +983,13 @@ Fixpoint minstr_eqb (a b : minstr) {struct a} : bool :=
   | MNone t1, MNone t2 | MNil t1, MNil t2 => ty_eqb t1 t2
   | MEmptyBigMap k1 v1, MEmptyBigMap k2 v2 => ty_eqb k1 k2 && ty_eqb v1 v2
   | MDip b1, MDip b2 => go b1 b2
-  | MIfNone t1 f1, MIfNone t2 f2 => go t1 t2 && go f1 f2
+  | MIfNone t1 f1, MIfNone t2 f2 | MIf t1 f1, MIf t2 f2 => go t1 t2 && go f1 f2
+  | MDipN n1 b1, MDipN n2 b2 => Nat.eqb n1 n2 && go b1 b2
+  | MLoop b1, MLoop b2 => go b1 b2
+  | MLambda a1 r1 b1, MLambda a2 r2 b2 => ty_eqb a1 a2 && ty_eqb r1 r2 && go b1 b2
+  | MExec, MExec => true
+  | MPatch PAmount v1, MPatch PAmount v2 | MPatch PBalance v1, MPatch PBalance v2 | MPatch PNow v1, MPatch PNow v2 =>
+      option_eqb Z.eqb v1 v2
   | _, _ => false
   end.
 
@@ -952,30 +999,107 @@ Fixpoint index_of (b : list minstr) (bodies : list (list minstr)) (i : nat) : na
   | x :: r => if list_eqb minstr_eqb x b then i else index_of b r (S i)
   end.
 
+(* a lambda value is shown by the index the harness gave to its body *)
+Definition lamf (bodies : list (list minstr)) (b : list minstr) : node := NSeq [NInt (Z.of_nat (index_of b bodies 0%nat))].
+
+Fixpoint render_ty (t : ty) : node :=
+  match t with
+  | TUnit => NPrim tag_unit [] [] | TInt => NPrim tag_int [] [] | TNat => NPrim tag_nat [] []
+  | TString => NPrim tag_string [] [] | TMutez => NPrim tag_mutez [] []
+  | TOperation => NPrim tag_operation [] []
+  | TPair a b => NPrim tag_pair [render_ty a; render_ty b] []
+  | TOption a => NPrim tag_option [render_ty a] []
+  | TList a => NPrim tag_list [render_ty a] []
+  | TBigMap k v => NPrim tag_big_map [render_ty k; render_ty v] []
+  | TBool => NPrim tag_bool [] []
+  | TLambda a r => NPrim tag_lambda [render_ty a; render_ty r] []
+  end.
+
+(* to_micheline_value(lazy_diff=False): a big_map shows its id *)
+Fixpoint render_g {H} (fl : list minstr -> node) (f : H -> node) (v : gval H) : node :=
+  match v with
+  | GUnit => NPrim tag_Unit [] []
+  | GInt z | GNat z | GMutez z => NInt z
+  | GStr s => NStr s
+  | GPair a b =>
+      (* readable mode flattens right combs: Pair a (Pair b c) shows as Pair a b c *)
+      NPrim tag_Pair (render_g fl f a ::
+        (fix tail (w : gval H) : list node :=
+           match w with
+           | GPair x y => render_g fl f x :: tail y
+           | _ => [render_g fl f w]
+           end) b) []
+  | GNone _ => NPrim tag_None [] []
+  | GSome a => NPrim tag_Some [render_g fl f a] []
+  | GNil _ => NSeq []
+  | GBig _ _ h => f h
+  | GBool b => NPrim (if b then tag_True else tag_False) [] []
+  | GLam _ _ body => fl body
+  end.
+
+Definition render_s (fl : list minstr -> node) (v : sval) : node := render_g fl (fun e : Empty_set => match e with end) v.
+Definition render_v (fl : list minstr -> node) (v : value) : node := render_g fl (fun h => NInt (h_ptr h)) v.
+
+Definition nbool (b : bool) : node := NInt (if b then 1 else 0).
+Definition nnat (n : nat) : node := NInt (Z.of_nat n).
+Definition nopt (o : option node) : node := match o with Some x => NSeq [x] | None => NSeq [] end.
+
+Definition render_handle (fl : list minstr -> node) (h : handle) : node :=
+  NSeq [NInt (h_ptr h); nnat (h_ctx h);
+        NSeq (map (fun kv => NSeq [render_s fl (fst kv); render_s fl (snd kv)]) (h_items h));
+        NSeq (map (render_s fl) (h_removed h))].
+
+Definition render_item (fl : list minstr -> node) (v : value) : node :=
+  NSeq [render_ty (type_of v); render_v fl v; NSeq (map (render_handle fl) (handles_of v))].
+
+Definition render_action (a : action) : node :=
+  NInt (match a with AAlloc => 0 | AUpdate => 1 | ACopy => 2 end).
+
+Definition render_diff (fl : list minstr -> node) (d : diff) : node :=
+  NSeq [NInt (d_id d); render_action (d_action d);
+        NSeq (map (fun u => NSeq [render_s fl (fst u); nopt (option_map (render_s fl) (snd u))]) (d_updates d));
+        nopt (option_map (fun kv => NSeq [render_ty (fst kv); render_ty (snd kv)]) (d_types d))].
+
+Definition render_output (fl : list minstr -> node) (o : output) : node :=
+  match o with
+  | OCommit d r => NSeq [NInt 0; NSeq (map (render_diff fl) d); render_g fl NInt r]
+  | ORun d r => NSeq [NInt 1; NSeq (map (render_diff fl) d); render_g fl NInt r]
+  | ODiff d => NSeq [NInt 2; NSeq (map (render_diff fl) d)]
+  end.
+
 Definition render_ctx (bodies : list (list minstr)) (c : ctxrec) : node :=
   NSeq [nopt (option_map render_ty (c_param c)); nopt (option_map render_ty (c_storage c));
         nopt (option_map (fun b => nnat (index_of b bodies 0%nat)) (c_code c));
         NInt (c_tmp c); NInt (c_alloc c);
-        NSeq (map (fun e => NSeq [NInt (fst e); NInt (fst (snd e)); nbool (snd (snd e))]) (c_table c))].
+        NSeq (map (fun e => NSeq [NInt (fst e); NInt (fst (snd e)); nbool (snd (snd e))]) (c_table c));
+        nopt (option_map NInt (c_amount c)); nopt (option_map NInt (c_balance c)); nopt (option_map NInt (c_now c))].
 
-Definition render_res (r : cellres) : node :=
-  match r with RDone o => NSeq [NInt 1; NSeq (map render_output o)] | RFail => NSeq [NInt 0] end.
+Definition render_res (fl : list minstr -> node) (r : cellres) : node :=
+  match r with
+  | RDone o => NSeq [NInt 1; NSeq (map (render_output fl) o)]
+  | RFail => NSeq [NInt 0]
+  | RFuel => NSeq [NInt 2]
+  end.
 
 (* after every cell: its result, the stack, the identity and contents of the interpreter's context *)
 Definition render_step (bodies : list (list minstr)) (s : session) (r : cellres) : node :=
-  NSeq [render_res r; NSeq (map render_item (s_stack s)); nnat (s_cur s); render_ctx bodies (s_ctx s)].
+  NSeq [render_res (lamf bodies) r; NSeq (map (render_item (lamf bodies)) (s_stack s)); nnat (s_cur s);
+        render_ctx bodies (s_ctx s)].
 
-Fixpoint run_obs (m : mode) (bodies : list (list minstr)) (s : session) (cells : list cell) : list node :=
+Fixpoint run_obs (m : mode) (fuel : nat) (bodies : list (list minstr)) (s : session) (cells : list cell) : list node :=
   match cells with
   | [] => [NSeq (map (fun e => NSeq [nnat (fst e); render_ctx bodies (snd e)]) (s_stale s))]
   | c :: r =>
-      let '(s1, o) := exec_cell m s c in
-      render_step bodies s1 o :: run_obs m bodies s1 r
+      let '(s1, o) := exec_cell m fuel s c in
+      render_step bodies s1 o :: run_obs m fuel bodies s1 r
   end.
 
 (* entry point of the correspondence run: all observations of a session as one tree *)
+(* fuel of the correspondence run: generated sessions loop and nest EXEC far below it *)
+Definition FUEL : nat := 64.
+
 Definition session_obs (m : mode) (bodies : list (list minstr)) (cells : list cell) : node :=
-  NSeq (run_obs m bodies init cells).
+  NSeq (run_obs m FUEL bodies init cells).
 
 (* compact serialisation of a tree (a big nested list literal takes coqc many seconds to elaborate,
    a hex string does not); the harness serialises the implementation's observation the same way *)
